@@ -11,7 +11,9 @@
 (*   RecvNew(f)  first datagram of a foreign message: handed to the        *)
 (*               discovery layer, id remembered                            *)
 (*   RecvDup(f)  further copies of a foreign message: ignored              *)
-(* The memory is modelled unbounded (the real one keeps the last 200 ids). *)
+(* The memory is modelled unbounded (the real one keeps the last 200 ids): *)
+(* the replay also runs behaviours on a node that has already seen a full  *)
+(* memory of foreign ids, so that forgetting the WRONG id shows up.        *)
 (***************************************************************************)
 EXTENDS Naturals, Sequences, FiniteSets, TLC, Json
 
